@@ -1133,6 +1133,10 @@ fn main() {
                 || format!("(obs_sb 0 {} {} (Ok (ITrust (IList {}) {})))", coq_nat(len + 1), coq_nat(st), cl(&xs), coq_nat(xs.len())),
                 || observe_fwd(&|| fwd(xs.titer().to_trust(xs.len()).step_by(st)), len + 1, 0));
         }
+        // step_by(0): `assert!(step != 0)` in StepBy::new, Panic AssertFail in Model.Iter.step_by
+        em.case("exact", &format!("fn=std_step_by_x len={} step=0{}", len, nt(len)), &format!("{:?}.titer().to_trust(len).step_by(0)", xs),
+            || format!("(obs_sb 0 1%nat 0%nat (Ok (ITrust (IList {}) {})))", cl(&xs), coq_nat(xs.len())),
+            || observe_fwd(&|| fwd(xs.titer().to_trust(xs.len()).step_by(0)), 1, 0));
         // std adaptors that are not modelled: the contract itself (hint - count = 0 at every point)
         {
             let steps = len + 1;
